@@ -225,8 +225,9 @@ def sqlOk (w : Gen.SqlWrite) : Bool :=
   (if w.table = "headers" ∧ w.verb = "update" then decide (w.cols = ["header_state"]) else true) &&
   -- an INSERT into headers never overwrites
   (if w.table = "headers" ∧ w.verb = "insert" then decide (w.conflict = "do-nothing") else true) &&
-  -- nothing deletes from headers
-  !(decide (w.table = "headers" ∧ w.verb = "delete")) &&
+  -- nothing deletes from headers while the service runs: the only DELETE is the start-up import's removal of the rows a
+  -- REFUSED import had just written into the (until then empty) table — database/import.go, fix b6e0af0, property C17
+  (if w.table = "headers" ∧ w.verb = "delete" then decide (w.origin = "database/import.go") else true) &&
   -- schema statements come only from migrations / database.go / import.go
   (if w.verb ∈ ["alter", "create-table", "create-index", "drop-index"] then migrationOrigin w.origin else true)
 
